@@ -138,6 +138,9 @@ def oracle(case, impl):
         elif line.startswith('badstate'):
             if out != 'rejected':
                 bad.append('%s: an undecodable state was not reported as an error (%s)' % (line, out))
+        elif line.startswith('collide'):
+            if out != 'collide same=true fine':
+                bad.append('%s: colliding-ids: the state of a keyspace whose tombstone ids collide in the archived hash index cannot be handed over in bounded time (%s)' % (line, out))
         elif line.startswith('badenvelope'):
             want = 'accepted %s' % line.split()[3] if line.split()[2] == 'ok' else 'rejected'
             if out != want:
@@ -157,12 +160,11 @@ def oracle2(case, impl, model):
 
 
 def explain(v):
-    """D12: the nested set bytes of a GetState reply are decoded unchecked.  rkyv cannot be modelled, so the
-    model side of a `badstate` line is the specification itself (`rejected`); the violation is attributed to the
-    listed finding iff it is confined to `badstate` lines."""
+    """F1 (known finding): the violation is attributed to the listed finding iff it is confined to `collide` lines (the model
+    side of such a line is the specification itself: `fine`)."""
     msgs = [s[2] for s in v['spec']]
-    if msgs and all('undecodable state' in m or m.startswith('badstate') for m in msgs) and all(d[1].startswith('badstate') for d in v['disagree']):
-        return 'D12-unchecked-nested-decode'
+    if msgs and all('colliding-ids' in m or m.startswith('impl=collide') for m in msgs) and all(d[1].startswith('collide') for d in v['disagree']):
+        return 'F1-colliding-tombstone-ids'
     return None
 
 
